@@ -989,6 +989,8 @@ def analyse(result, name, opcode):
     if result["status"] != "ok":
         info["placement"] = "none"
         info["crash"] = "%s at %s" % (result.get("exception", "exit code %s" % result.get("exit_code")), result.get("crash_site"))
+        info["crash_site"] = (result.get("crash_site") or "").split(":")[-1] or None
+        info["exception_type"] = (result.get("exception") or "").split(":")[0] or None
         return info
     outp = compiles.artefact(result)
     out = tflsum.summarise(outp)
@@ -1080,7 +1082,7 @@ def classify(a):
         return None
     if a["placement"] == "none":
         con = (a["failing_doc"] or a["failing_real"] or [x[0] for x in a["raising"]] or [None])[0]
-        return ({"kind": "crash", "net": net, "crash": (a.get("crash") or "")[:120], "constraint": con},
+        return ({"kind": "crash", "net": net, "crash_site": a.get("crash_site"), "exception_type": a.get("exception_type"), "constraint": con},
                 "compiler crashed (%s) on an operator %s: %s" % (a.get("crash"), "for which every listed constraint holds" if a["doc_all"]
                                                                  else "that violates listed constraint(s) %s and had to stay on the CPU" % (a["failing_doc"] or a["failing_real"] or a["raising"]), net))
     if a["placement"] == "removed":
@@ -1129,7 +1131,13 @@ def run(tier):
         viol(key, p, "generated report does not list exactly the enforced constraints for %s: not listed %r, listed but not enforced %r" % (
             p.get("operator", "the operator table"), p.get("enforced_but_not_listed", p.get("missing")), p.get("listed_but_not_enforced", p.get("extra"))))
     for name, d in doc_diffs.items():
-        viol({"kind": "documented_vs_enforced", "constraint": name},
+        if d["documented"] == 0 and d["real"] == 1:
+            kind, cause = "npu_although_listed_constraint_fails", "documented_sentence_stricter_than_code"
+        elif d["documented"] == 1 and d["real"] == 0:
+            kind, cause = "cpu_although_all_listed_constraints_hold", "code_stricter_than_documented_sentence"
+        else:
+            kind, cause = "constraint_function_raises", "exception_in_constraint_function"
+        viol({"kind": kind, "constraint": name, "cause": cause, "level": "constraint_function"},
              dict(d, replay="TFLiteSupportedOperators.%s on an operator with these parameters" % name),
              "the sentence the report prints for %s and the predicate the compiler enforces differ: parameters %s -> documented %s, enforced %s" % (
                  name, json.dumps(d["params"])[:160], d["documented"], d["real"]))
@@ -1157,7 +1165,7 @@ def run(tier):
         if tier == "thorough":
             accs = THOROUGH_ACCS if i < len(NETS) else [rot[i % 6], rot[(i + 3) % 6]]
         else:
-            accs = [rot[i % 6]] + ([rot[(i + 1) % 6]] if i % 2 == 0 else [])
+            accs = [rot[i % 6]] + ([rot[(i + 3) % 6]] if i % 5 == 0 else [])
         for acc in accs:
             jobs.append({"tflite": path, "sha": sha, "args": ["--accelerator-config", acc], "capture": False, "family": "c16:" + name, "seed": "c16"})
     results = compiles.run_all(jobs, timeout=900)
@@ -1203,7 +1211,7 @@ def run(tier):
         "evaluations": cstats["cases"] + analysed + rrows, "distinct_nontrivial": cstats["distinct"] + len(nets),
         "rule": "correspondence: distinct (constraint, real answer, parameters) triples evaluated on real Operation objects by the real "
                 "constraint methods and by the extracted translated predicates; placement: distinct boundary networks, each compiled "
-                "for 1-2 (thorough: 6) accelerators, judged by the documented reading of every listed sentence (real constraint "
+                "for 1-2 (thorough: 6) accelerators, rotating over the six, judged by the documented reading of every listed sentence (real constraint "
                 "function where no numeric reading exists) against the operator's presence in the output model",
         "samples": samples or [{"note": "none"}],
         "disagreements_checked": len(model_diffs) + len(doc_diffs),
